@@ -847,8 +847,12 @@ fn main() {
     let out_json = &args[5];
     let mut vars: HashMap<String, String> = HashMap::new();
     let mut i = 6;
+    let mut vac = false;
     while i < args.len() {
-        if args[i] == "-D" && i + 1 < args.len() {
+        if args[i] == "--vac" {
+            vac = true;
+            i += 1;
+        } else if args[i] == "-D" && i + 1 < args.len() {
             let (k, v) = args[i + 1].split_once('=').unwrap_or_else(|| die("bad -D"));
             vars.insert(k.to_string(), v.to_string());
             i += 2;
@@ -885,6 +889,7 @@ fn main() {
     let mut body = Out { text: String::new(), line: 1 };
     let mut items_log: Vec<Value> = Vec::new();
     let mut texts_log: Vec<Value> = Vec::new();
+    let mut vacs_log: Vec<Value> = Vec::new();
     let mut bytes_copied = 0usize;
 
     // header lines are emitted first; count them so line numbers are right
@@ -948,6 +953,14 @@ fn main() {
                 body.push(&emitted);
                 body.push("\n");
                 bytes_copied += loc.whole.hi - loc.whole.lo;
+                if vac {
+                    if let Some(vtxt) = vac_fn(src, &loc, &spec, &subst) {
+                        let v0 = body.line;
+                        body.push(&vtxt);
+                        body.push("\n");
+                        vacs_log.push(json!({"guard_for": qname(&spec), "gen_lines": [v0, body.line - 1]}));
+                    }
+                }
                 // splices carry offsets (line within emitted text); convert to generated lines
                 let spl: Vec<Value> = splices
                     .iter()
@@ -983,8 +996,100 @@ fn main() {
         "bytes_copied": bytes_copied,
         "items": items_log,
         "texts": texts_log,
+        "vacuity_guards": vacs_log,
     });
     std::fs::write(out_json, serde_json::to_string_pretty(&log).unwrap()).unwrap_or_else(|e| die(&format!("{out_json}: {e}")));
+}
+
+/// must-fail guard: `proof fn vac_f(params) requires <f's requires> { assert(false); }` — if Verus proves it, the
+/// precondition of f is contradictory and every obligation of f is vacuous.
+fn vac_fn(src: &Src, loc: &Located, spec: &ItemSpec, subst: &[(String, String)]) -> Option<String> {
+    let sig = loc.sig?;
+    if spec.frag.is_some() || spec.sigonly {
+        return None;
+    }
+    // trait declarations (no body) are skipped: a proof fn with a body cannot live in the trait
+    if loc.block.is_none() {
+        return None;
+    }
+    if matches!(spec.selector.first().map(|x| x.as_str()), Some("trait")) {
+        return None;
+    }
+    let c = spec.contract.as_ref()?;
+    let ri = c.find("requires")?;
+    let rest = &c[ri + "requires".len()..];
+    let end = rest.find("ensures").unwrap_or(rest.len());
+    let mut req = rest[..end].trim().trim_end_matches(',').to_string();
+    if req.is_empty() {
+        return None;
+    }
+    // old(x) / *old(x) -> x ; self -> self_
+    loop {
+        let Some(i) = req.find("old(") else { break };
+        let j = req[i..].find(')')? + i;
+        let inner = req[i + 4..j].to_string();
+        let star = i > 0 && req.as_bytes()[i - 1] == b'*';
+        let lo = if star { i - 1 } else { i };
+        req.replace_range(lo..j + 1, &inner);
+    }
+    let mut out = String::new();
+    let b = req.as_bytes();
+    let mut k = 0;
+    while k < b.len() {
+        if req[k..].starts_with("self")
+            && (k == 0 || !(b[k - 1].is_ascii_alphanumeric() || b[k - 1] == b'_'))
+            && (k + 4 >= b.len() || !(b[k + 4].is_ascii_alphanumeric() || b[k + 4] == b'_'))
+        {
+            out.push_str("self_");
+            k += 4;
+        } else {
+            out.push(b[k] as char);
+            k += 1;
+        }
+    }
+    let mut params: Vec<String> = Vec::new();
+    for a in &sig.inputs {
+        match a {
+            syn::FnArg::Receiver(_) => params.push("self_: Self".to_string()),
+            syn::FnArg::Typed(pt) => {
+                let name = src.text[rng(&*pt.pat).lo..rng(&*pt.pat).hi].trim_start_matches("mut ").to_string();
+                let mut ty = src.text[rng(&*pt.ty).lo..rng(&*pt.ty).hi].to_string();
+                for (n, new, _) in &spec.retype {
+                    if *n == name {
+                        ty = new.clone();
+                    }
+                }
+                if let Some(t) = ty.strip_prefix("&mut ") {
+                    ty = t.to_string();
+                }
+                for (from, to) in subst {
+                    // whole-word replacement
+                    let mut res = String::new();
+                    let tb = ty.as_bytes();
+                    let mut q = 0;
+                    while q < tb.len() {
+                        if ty[q..].starts_with(from.as_str())
+                            && (q == 0 || !(tb[q - 1].is_ascii_alphanumeric() || tb[q - 1] == b'_'))
+                            && (q + from.len() >= tb.len() || !(tb[q + from.len()].is_ascii_alphanumeric() || tb[q + from.len()] == b'_'))
+                        {
+                            res.push_str(to);
+                            q += from.len();
+                        } else {
+                            res.push(tb[q] as char);
+                            q += 1;
+                        }
+                    }
+                    ty = res;
+                }
+                params.push(format!("{name}: {ty}"));
+            }
+        }
+    }
+    let fname = spec.rename.clone().unwrap_or_else(|| sig.ident.to_string());
+    Some(format!(
+        "// vacuity guard (must FAIL): the precondition of `{}` is satisfiable\nproof fn vac_{}({})\n    requires {}\n{{ assert(false); }}",
+        qname(spec), fname, params.join(", "), out
+    ))
 }
 
 fn qname(spec: &ItemSpec) -> String {
